@@ -248,6 +248,34 @@ fn verif_cex_production_limits() {
             if back.as_deref() != Some(&x[..]) {
                 report("round-trip-prod", &x[..x.len().min(16)], &format!("n={} pat={}", n, pat), "mismatch", "input");
             }
+            // the public Decoder fed in two pieces, cut at / around every chunk boundary of the encoded bytes, through
+            // every mix of the borrowing and the copying input method (a fresh decoder's first piece ending exactly
+            // after a full initial chunk is one of these)
+            {
+                let len = want.len();
+                let mut cuts: Vec<usize> = vec![0, 1, 2, len / 2, len.saturating_sub(2), len.saturating_sub(1), len];
+                cuts.extend(250..=258usize);
+                cuts.extend(64258..=64268usize);
+                if len <= 520 {
+                    cuts.extend(0..=len);
+                }
+                cuts.retain(|c| *c <= len);
+                cuts.sort();
+                cuts.dedup();
+                for &cut in &cuts {
+                    for mode in 0..4 {
+                        let mut d = Decoder::new();
+                        let (a, b) = want.split_at(cut);
+                        let r1 = if mode & 1 == 0 { d.decode(a) } else { d.decode_copy(a) };
+                        let r2 = if r1.is_ok() { if mode & 2 == 0 { d.decode(b) } else { d.decode_copy(b) } } else { r1 };
+                        let back = if r2.is_ok() { d.finish().ok().map(|v| v.flatten().expect("flat")) } else { None };
+                        if back.as_deref() != Some(&x[..]) {
+                            report("round-trip-prod-two-pieces", &x[..x.len().min(16)], &format!("n={} pat={} cut={} mode={}", n, pat, cut, mode),
+                                   &match &back { Some(v) => format!("len {}", v.len()), None => "rejected".to_string() }, &format!("len {}", n));
+                        }
+                    }
+                }
+            }
             // out-of-range headers must be rejected
             if n == 0 {
                 let mut d = Decoder::new();
